@@ -121,9 +121,16 @@ fn sample_ids(rng: &mut Rng, n: usize) -> Vec<u64> {
     let flavor = rng.below(3);
     while s.len() < n {
         s.insert(match flavor {
-            0 => rng.below(12),
+            0 => rng.below(12.max(3 * n as u64)),
             1 => rng.below(1000) * 13 + 5,
-            _ => *rng.pick(&[0u64, 1, 7, 1 << 20, (1 << 40) + 3, u64::MAX - 1, 99, 100, 12345, 5_000_000_000]),
+            _ => {
+                let base = *rng.pick(&[0u64, 1, 7, 1 << 20, (1 << 40) + 3, u64::MAX - 1, 99, 100, 12345, 5_000_000_000]);
+                if n > 8 {
+                    base.wrapping_sub(rng.below(n as u64)).max(rng.below(3))
+                } else {
+                    base
+                }
+            }
         });
     }
     let mut v: Vec<u64> = s.into_iter().collect();
@@ -201,15 +208,18 @@ impl Property for C06 {
         ]
     }
 
-    fn run_case(&self, _k: u64, rng: &mut Rng, _env: &Env, mon: &mut Monitor) {
+    fn run_case(&self, case_k: u64, rng: &mut Rng, env: &Env, mon: &mut Monitor) {
+        let self_tier_thorough = env.tier == Tier::Thorough;
         let regime = if rng.chance(3, 4) { Regime::D } else { Regime::R };
-        let cfg = InstCfg::new(regime);
+        let mut cfg = InstCfg::new(regime);
+        cfg.deepen(self_tier_thorough, case_k);
         let g = gen_instance(rng, &cfg);
         let mut inst = g.instance;
         add_threshold_constraints(rng, &mut inst, &g.pool);
         let hidden = add_fixed_and_dependent(rng, &mut inst, regime);
         let used = used_ids(&inst);
-        let n = 1 + rng.usize_below(8);
+        // 1..8 sample ids (the property's range); deep thorough cases go up to 40
+        let n = 1 + rng.usize_below(if self_tier_thorough && case_k % 8 == 5 { 40 } else { 8 });
         let ids = sample_ids(rng, n);
         let nstates = 1 + rng.usize_below(n);
         let omit_irrelevant = rng.chance(1, 3);
